@@ -17,8 +17,20 @@ def sline(variant, memory, strs):
 
 
 def shaped(rng, n):
-    shape = rng.choice(("random", "dups", "prefix", "equal", "highbyte", "empty"))
+    shape = rng.choice(("random", "dups", "prefix", "equal", "highbyte", "empty", "long"))
     out = []
+    if shape == "long":
+        # common prefixes and exact duplicates longer than 255 / 511 bytes: LCP values and depths that do not fit narrow integer types (round-4 seeded
+        # change: an 8-bit LCP field in the multikey quicksort step of the parallel sorter)
+        L = rng.choice((250, 255, 256, 257, 300, 520, 1000)) if n <= 120 else rng.choice((256, 300))
+        lb = [rng.choice((97, 98))] * 3 + [rng.choice((97, 98, 99)) for _ in range(L - 3)]
+        tails = [[], [], [1], [97], [97, 98], [255], [98, 1]]
+        for _ in range(n):
+            r = rng.random()
+            if r < 0.6: out.append(lb + rng.choice(tails))                   # exact duplicates among them
+            elif r < 0.8: out.append(lb[: L - rng.choice((0, 1, 2, 7, 8, 9, 255, 256)) if L > 256 else L - rng.choice((0, 1, 2, 7, 8, 9))])
+            else: out.append(lb[: rng.randint(0, L)] + [rng.choice((1, 255))])
+        return out
     base = [rng.choice((97, 98, 99, 1, 255, 128)) for _ in range(rng.randint(0, 12))]
     for _ in range(n):
         if shape == "random": s = [rng.randint(1, 255) for _ in range(rng.randint(0, 6))]
